@@ -535,5 +535,5 @@ fn nontrivial(op: &str, args: &[&str]) -> bool {
 
 fn main() {
     harness_main(Spec { prop: "C03", gen, exec, nontrivial, hang_secs: 20,
-        rule: "exhaustive: all ordered pairs of shapes rank<=3 len<=3 (39^2) for broadcast, zip, broadcast_to (source,target) and 2-lists of broadcast_arrays; triples: 4000 sampled (quick) / all 39^3 (thorough); stretch targets up to rank 6; seeded random rank<=4 len<=5 mostly-compatible pairs/triples; zero-length shapes (refused on aligned axes, accepted as added leading target axes). The crate-internal helpers broadcast_h2 / broadcast_h3 (ops h2 / h3) are observed through the public pure lifts `multiply` (string x count) and `ljust` (string x width x fill char) with per-position-recoverable operands, so the result text gives back the two / three stretched operands: all ordered pairs rank<=3 len<=3 for h2; triples: every ordered pair with a sampled third operand in a sampled position + 1500 sampled (quick) / all 39^3 (thorough); rank-0 operands; random rank<=4 len<=5. Tag arrays (distinct integers; k-th operand offset 1000k). distinct = distinct case lines; non-trivial = at least one operand stretched along an axis of target length > 1" });
+        rule: "exhaustive: all ordered pairs of shapes rank<=3 len<=3 (39^2) for broadcast, zip, broadcast_to (source,target) and 2-lists of broadcast_arrays; triples: 4000 sampled (quick) / all 39^3 (thorough); stretch targets up to rank 6; seeded random rank<=4 len<=5 mostly-compatible pairs/triples; zero-length shapes (refused on aligned axes, accepted as added leading target axes). The crate-internal helpers broadcast_h2 / broadcast_h3 (ops h2 / h3) are observed through the public pure lifts `multiply` (string x count) and `ljust` (string x width x fill char) with per-position-recoverable operands, so the result text gives back the two / three stretched operands: all ordered pairs rank<=3 len<=3 for h2; triples: every ordered pair with a sampled third operand in a sampled position + 1500 sampled (quick) / all 39^3 (thorough); rank-0 operands; random rank<=4 len<=5. Tag arrays (distinct integers; k-th operand offset 1000k). Robustness streams: big targets (lib big_shapes, every axis length 7..17 in leading/inner/trailing position, targets above 4096 elements of rank 1..6 such as [70,70], [3,41,41], [65,64], [4097], [8192]; seeded random targets of 300..6000 elements, thorough ..12000) x every source with one axis made a unit axis / only one axis kept / leading axes dropped / the one-element array, complementary unit-axis pairs in both orders, 2- and 3-lists, an added leading axis on the big array, the equal-count reshape arm and a non-stretchable neighbour, for broadcast_to, broadcast, zip, broadcast_arrays; h2 / h3 on targets above 4096 elements; every ordered pair of 13 zero-length shapes and 9 small ones (at least one zero-length) for all six ops; value-class sources (every 0/1 pattern of up to 4 elements = -0.0/+0.0 under the f64 image, mixtures with NaN, subnormals, 2^53+2). EVERY broadcast / zip / broadcast_to / broadcast_arrays case is executed on the plain Array<i64> receiver (the compared answer), a second time, on the Result receiver (Ok(array).broadcast / .broadcast_to, <Result<..>>::broadcast_arrays), and on the u8, bool and two f64 images (tag 0 = -0.0; value classes mod 8; bit-wise; pairs: both components separately) - results of up to 600 elements also i8, u8 near 255, i64 beyond 2^53, u16, i32, f32, usize, String, all on both receivers; any divergence fails the case. distinct = distinct case lines; non-trivial = at least one operand stretched along an axis of target length > 1" });
 }
